@@ -1,0 +1,8 @@
+//go:build !verif
+
+package main
+
+// No-op counterparts of the hooks in verif_on.go.
+
+func verifGate(string, int)    {}
+func verifNote(string, string) {}
